@@ -65,6 +65,25 @@ extern "C" void h_complex_STEPread()
     else {
         __CPROVER_assert(in._m_consumed == (unsigned long)n, "a well-formed complex instance is read up to and including its closing parenthesis");
         if (in_nparts == 0) __CPROVER_assert(s == SEVERITY_NULL, "no parts, no error");
-        else __CPROVER_assert(s == (Severity)in_partsev, "C03 what went wrong inside a part of a complex instance is reported for the complex instance (its severity is the worst severity of its parts)");
     }
+}
+
+/* C03: what went wrong inside a part of a complex instance is an error of the complex instance.  (Known finding on the current
+ * tree, see known_findings.json: the repair exposes a second defect that 14 tests of the unedited suite depend on.) */
+extern "C" void h_complex_part_errors()
+{
+    IN(int, in_partsev);
+    __CPROVER_assume(in_partsev == SEVERITY_NULL || in_partsev == SEVERITY_USERMSG || in_partsev == SEVERITY_INCOMPLETE || in_partsev == SEVERITY_WARNING || in_partsev == SEVERITY_INPUT_ERROR);
+    const char *txt = "(A())";
+    g_stream_arbitrary = 0; int n = 0; while (txt[n]) { g_stream_script[n] = txt[n]; n++; } g_stream_len = n;
+    istream in; in._m_state = 0; in._m_have = 0; in._m_consumed = 0;
+    STEPcomplex *sc = (STEPcomplex *)malloc(sizeof(STEPcomplex)); sc->head = 0; sc->sc = 0;
+    sc->_error._userMsg._n = 0; sc->_error._userMsg._m[0] = 0; sc->_error._detailMsg._n = 0; sc->_error._detailMsg._m[0] = 0; sc->_error._severity = SEVERITY_NULL;
+    g_part_sev = (Severity)in_partsev;
+    for (int i = 0; i < 2; i++) { g_parts[i] = (STEPcomplex *)malloc(sizeof(STEPcomplex)); g_parts[i]->_error._userMsg._n = 0; g_parts[i]->_error._userMsg._m[0] = 0; g_parts[i]->_error._detailMsg._n = 0; g_parts[i]->_error._detailMsg._m[0] = 0; g_parts[i]->_error._severity = SEVERITY_NULL; }
+    InstMgrBase *set = (InstMgrBase *)malloc(8);
+    g_part_lookups = g_reads = g_err_calls = g_clear_calls = 0; g_part_missing_at = -1;
+    Severity s = sc->STEPcomplex::STEPread(5, 0, set, in, 0, true, true);
+    __CPROVER_assert(g_reads == 1, "the part is read");
+    __CPROVER_assert(s <= (Severity)in_partsev, "C03 what went wrong inside a part of a complex instance is reported for the complex instance (its severity is at least as bad as the part's)");
 }
